@@ -714,3 +714,17 @@ Lemma refresh_only_provided c i h n now l k q :
 Proof.
   intros H1 H2 H3. exact (trun_poll_sound c i h empty_tstore sync_empty n now l H1 H2 k q H3).
 Qed.
+
+(* observation (outside the property text): `local_providers` is not bounded by max_provider_keys —
+   a key whose provider record expired and was pruned stays registered as provided *)
+Lemma local_registrations_outlive_provider_keys :
+  exists c i h,
+    1 <= max_per_key c /\ max_keys c = 1 /\ mono 0 h /\
+    length (pkeys (ts_store (tfinal c i h))) = 1%nat /\
+    length (locals (ts_store (tfinal c i h))) = 2%nat /\
+    length (ts_quorum (tfinal c i h)) = 2%nat.
+Proof.
+  exists (mkCfg 2 10 1 1 2 1), 50,
+         [(TPutLocal 0 1 1, 0); (TPoll, 0); (TOp (OGetProviders 0), 5); (TPutLocal 1 1 1, 5)].
+  vm_compute. repeat split; try reflexivity; discriminate.
+Qed.
